@@ -35,7 +35,7 @@ func ints(vs ...uint64) []wprog.Arg {
 }
 
 func call(m string, args ...wprog.Arg) wprog.Call { return wprog.Call{Method: m, Args: args} }
-func icall(m string, vs ...uint64) wprog.Call    { return wprog.Call{Method: m, Args: ints(vs...)} }
+func icall(m string, vs ...uint64) wprog.Call     { return wprog.Call{Method: m, Args: ints(vs...)} }
 func rd(b []byte, closed bool) wprog.Arg {
 	return wprog.Arg{Kind: "reader", Reader: &wprog.ReaderOp{Append: b, Close: closed}}
 }
